@@ -48,12 +48,14 @@ LdrMatches(s, j) ==
         /\ \A k \in 1..Len(j.ldr.repls) : ReplMatches(s.ldr.repl[j.ldr.repls[k].id], j.ldr.repls[k])
 
 NodeMatches(s, j) ==
-    /\ s.up = j.up
+    /\ s.up = j.up /\ s.died = j.died
     /\ s.term = j.term /\ s.vote = j.vote /\ s.dterm = j.disk.term /\ s.dvote = j.disk.vote
     /\ s.logPrev = j.logPrev /\ Len(s.log) = Len(j.log)
     /\ \A k \in 1..Len(s.log) : s.log[k] = EntryOf(j.log[k])
     /\ s.synced = j.synced
-    /\ s.snapIdx = j.snap.index /\ s.snapTerm = j.snap.term
+    /\ s.snapIdx = j.snap.index /\ s.snapTerm = j.snap.term /\ s.snapCmds = j.snap.cmds
+    /\ (s.snapIdx > 0 => s.snapCfg = CfgOf(j.snap.cfg))
+    /\ s.bnds = {j.bnds[k] : k \in 1..Len(j.bnds)}
     /\ s.up =>
         /\ s.inc = j.inc
         /\ s.state = j.state /\ s.leader = j.leader /\ s.commit = j.commit
@@ -62,6 +64,7 @@ NodeMatches(s, j) ==
         /\ (s.state = "C" => (s.votesNeeded = j.votesNeeded /\ s.cndTransfer = j.cndTransfer /\ s.selfVote = (j.respLen > 0)))
         /\ s.fsmIdx = j.fsm.index /\ s.fsmCmds = j.fsm.cmds /\ Len(s.fsmQ) = j.fsm.q
         /\ LdrMatches(s, j)
+        /\ s.snapG.pc = j.snapG
         /\ (s.died = "") = (j.died = "")
 
 \* debugging aid: VERIF_DEBUG_AT=k accepts record k without comparing and prints the specification's state after it
@@ -113,13 +116,17 @@ TReplSend == IsEv("replSend") /\ ~Has("skipped") /\ Step(ReplSend(Ev.i, Ev.j))
                 /\ (Has("req") => (Has("req") /\ "req" \in DOMAIN ev' /\ ev'.req = Ev.req))
 
 TAppendReq ==
-    /\ IsEv("appendReq")
+    /\ (IsEv("appendReq") \/ IsEv("snapReq"))
     /\ \/ /\ Step(AppendReq(Ev.i, Ev.j))
           /\ (Has("result") => (ev'.result = Ev.result /\ ev'.respTerm = Ev.respTerm /\ ev'.respLast = Ev.respLast))
        \/ \E k \in 1..Len(orph) : orph[k].from = Ev.i /\ orph[k].to = Ev.j /\ Step(OrphanReq(k))
             /\ (Has("result") => (ev'.result = Ev.result /\ ev'.respTerm = Ev.respTerm /\ ev'.respLast = Ev.respLast))
 
-TAppendResp == IsEv("appendResp") /\ Step(AppendResp(Ev.i, Ev.j))
+TAppendResp == (IsEv("appendResp") \/ IsEv("snapResp")) /\ Step(AppendResp(Ev.i, Ev.j))
+TTakeSnap   == IsEv("takeSnapshot") /\ Step(TakeSnapshotOp(Ev.n, Ev.threshold))
+TSnapGAsk   == IsEv("snapGAsk") /\ Step(SnapGAsk(Ev.n))
+TSnapGStore == IsEv("snapGStore") /\ Step(SnapGStore(Ev.n))
+TSnapTaken  == IsEv("snapTaken") /\ Step(SnapshotTaken(Ev.n))
 TReplFail   == IsEv("replFail") /\ Step(ReplFail(Ev.i, Ev.j))
 TReplPoll   == IsEv("replPoll") /\ Step(ReplPoll(Ev.i, Ev.j))
 TLdrUpdates == IsEv("ldrUpdates") /\ Step(LdrUpdates(Ev.n))
@@ -128,11 +135,13 @@ TFsm        == IsEv("fsm") /\ Step(Fsm(Ev.n))
 TCrash      == IsEv("crash") /\ Step(Crash(Ev.n))
 TRestart    == IsEv("restart") /\ Step(Restart(Ev.n))
 TChangeCfg  == IsEv("changeConfig") /\ Step(ChangeConfigOp(Ev.n, NodesFun(Ev.nodes)))
-TDisc       == IsEv("disconnected") /\ Step(Disconnected(Ev.n, Ev.peer))
+TDisc       == IsEv("disconnected")
+                 /\ IF node[Ev.n].leader = Ev.peer THEN Step(Disconnected(Ev.n, Ev.peer))
+                    ELSE l' = l + 1 /\ Prophecy /\ UNCHANGED <<node, rpcs, orph, gh, ctr, ev, hist>>   \* no effect unless the peer is the known leader
 
 TInit == Init /\ l = 0 /\ ordc = FixedOrd /\ rfc = TRUE
 TNext == \/ TReset \/ TSkipped \/ TTimeout \/ TVoteReq \/ TVoteResp \/ TReplSend \/ TAppendReq \/ TAppendResp
-         \/ TReplFail \/ TReplPoll \/ TLdrUpdates \/ TClient \/ TFsm \/ TCrash \/ TRestart \/ TDisc \/ TChangeCfg
+         \/ TReplFail \/ TReplPoll \/ TLdrUpdates \/ TClient \/ TFsm \/ TCrash \/ TRestart \/ TDisc \/ TChangeCfg \/ TTakeSnap \/ TSnapGAsk \/ TSnapGStore \/ TSnapTaken
 
 \* printed at every state; the last line printed tells how far the trace was accepted
 Progress == (l = Len(Trace)) => PrintT(<<"TRACE-ACCEPTED", l>>)
